@@ -472,6 +472,11 @@ func runC15(c *kit.Ctx) {
 			dstP := paramOfType(fn, "[]byte", 1) // (src, dst []byte)
 			cv, isCv := kit.Res(r, 1).(*ssa.Convert)
 			good := ap.Call.Args[0] == ssa.Value(dstP) && isCv && kit.LenOf(cv.X) != nil && kit.Same(kit.LenOf(cv.X), ap.Call.Args[1])
+			if !good && ap.Call.Args[0] == ssa.Value(dstP) && isCv {
+				// the same length written as a difference: len(append(dst, chunk...)) - len(dst)
+				eng := bounds.New(p)
+				good = isZeroLin(eng.Lin(cv.X).Sub(eng.LenOf(ap.Call.Args[1])))
+			}
 			c.Check(good, fn, "append-and-length", r.Pos(), "returns append(dst, chunk...) and uint32(len(chunk)) of the same chunk", "the codec reports a length that is not the length of what it appended to dst")
 		})
 	}
